@@ -34,6 +34,23 @@ func specExpands(collapsed, name string) bool { return collapsed == name }
 //@ predicate listsStack(cfg *telemetry.UploadConfig, p string, s string): exists i int, j int :: 0 <= i && i < len(cfg.Programs) && 0 <= j && j < len(cfg.Programs[i].Stacks) && cfg.Programs[i].Name == p && cfg.Programs[i].Stacks[j].Name == s
 //@ predicate rateListed(cfg *telemetry.UploadConfig, p string, n string, r float64): (exists i int, j int :: 0 <= i && i < len(cfg.Programs) && 0 <= j && j < len(cfg.Programs[i].Counters) && cfg.Programs[i].Name == p && specExpands(cfg.Programs[i].Counters[j].Name, n) && cfg.Programs[i].Counters[j].Rate == r) || (exists i int, j int :: 0 <= i && i < len(cfg.Programs) && 0 <= j && j < len(cfg.Programs[i].Stacks) && cfg.Programs[i].Name == p && cfg.Programs[i].Stacks[j].Name == n && cfg.Programs[i].Stacks[j].Rate == r)
 
+// ---------------------------------------------------------------------------
+// C11: the approval vocabulary shared by the uploader, the upload server and
+// the local viewer. A program build is approved if its five metadata values are
+// listed; a counter is approved by its name, a stack counter by the part of its
+// name before the first newline.
+
+// SpecStackName(k): the part of a stack-counter name before its first newline.
+// Uninterpreted (string contents are outside the verifier's model); tied to the
+// code of each component by the contract of strings.Cut at its call.
+func SpecStackName(k string) string { return k }
+
+//@ uninterpreted SpecStackName
+
+//@ predicate approvedBuild(cfg *Config, p *telemetry.ProgramReport): p != nil && cfg.HasGOARCH(p.GOARCH) && cfg.HasGOOS(p.GOOS) && cfg.HasGoVersion(p.GoVersion) && cfg.HasProgram(p.Program) && cfg.HasVersion(p.Program, p.Version)
+//@ predicate approvedData(cfg *Config, p *telemetry.ProgramReport): (forall k string :: in(k, p.Counters) ==> cfg.HasCounter(p.Program, k)) && (forall k string :: in(k, p.Stacks) ==> cfg.HasStack(p.Program, SpecStackName(k)))
+//@ predicate approvedReport(cfg *Config, r *telemetry.Report): forall j int :: 0 <= j && j < len(r.Programs) ==> approvedBuild(cfg, r.Programs[j]) && approvedData(cfg, r.Programs[j])
+
 //@ contract set
 //@   modifies nothing
 
